@@ -310,6 +310,59 @@ Theorem C10_sync_async_same_source : twin_ncrypt_unprotect_secret = true /\ twin
 Proof. exact public_twins. Qed.
 Print Assumptions C10_sync_async_same_source.
 
+(* ---- 5. every outcome tied to ITS call; literal comparison with a fresh cache; the L0 guard ----
+   C10_transparent concludes good_outcome: "SOME (rk, sd)", and nothing for public-key outcomes.  Stronger: `completed evs` is the
+   list of the calls of the history in COMPLETION order (computed alongside the run: a call the model completes at once, or the
+   i-th pending call at Finish i), and the i-th completed call and the i-th outcome are `tied`:
+     unprotect (sd, rk, l0, l1, l2): o_pos = (l0, l1, l2); o_rpcs = 0 and private, or o_rpcs = 1 and o_pub = c_pub of the DC's reply to
+       exactly (sd, Some rk, l0, l1, l2); private => o_key = Ok (key_at rk sd l0 l1 l2) for THAT rk, sd; public => o_key = Raise ValueError;
+     protect (sd, rko, l0, l1, l2): served from the cache (o_rpcs = 0, private, o_pos = (l0, l1, l2), rko = Some rk and the key is key_at rk sd ..)
+       or o_rpcs = 1 and the outcome IS protect_finish of the DC's reply to (sd, rko, -1, -1, -1) (public or private; a private reply
+       carries the chain key of the position it names). *)
+Theorem C10_outcomes_tied : forall (K RK : Type) (kdf : KDF K) (l1seed : SEED K RK) (nokey : K) (dc : DC K) (truth : Z -> RK),
+  dc_explicit_ok dc -> dc_conforming_ok kdf l1seed dc truth ->
+  forall evs : list event, Forall (ev_adm l1seed truth) evs ->
+  Forall2 (tied kdf l1seed dc truth) (completed kdf l1seed nokey dc evs) (w_out (run_events kdf l1seed nokey dc evs)).
+Proof. exact (@outcomes_tied). Qed.
+Print Assumptions C10_outcomes_tied.
+Theorem C10_completed_started : forall (K RK : Type) (kdf : KDF K) (l1seed : SEED K RK) (nokey : K) (dc : DC K) (evs : list event),
+  Forall (fun cl => In (Start cl) evs) (completed kdf l1seed nokey dc evs).
+Proof. exact (@completed_started). Qed.
+Print Assumptions C10_completed_started.
+(* "the same as with a fresh cache", for every admitted history and every call completed in it (same_as_fresh: unprotect - when both
+   runs are private, same key and position as the same call on empty_cache; protect - an RPC outcome IS the fresh-cache outcome, and
+   an outcome served from the cache has the fresh-cache key and position when the DC's clock is the caller's (dc_clock)) *)
+Theorem C10_history_same_as_fresh : forall (K RK : Type) (kdf : KDF K) (l1seed : SEED K RK) (nokey : K) (dc : DC K) (truth : Z -> RK),
+  dc_explicit_ok dc -> dc_conforming_ok kdf l1seed dc truth ->
+  forall evs : list event, Forall (ev_adm l1seed truth) evs ->
+  Forall2 (same_as_fresh kdf l1seed nokey dc) (completed kdf l1seed nokey dc evs) (w_out (run_events kdf l1seed nokey dc evs)).
+Proof. exact (@history_same_as_fresh). Qed.
+Print Assumptions C10_history_same_as_fresh.
+(* the protect analogue of C10_same_as_fresh *)
+Theorem C10_protect_same_as_fresh : forall (K RK : Type) (kdf : KDF K) (l1seed : SEED K RK) (nokey : K) (dc : DC K) (truth : Z -> RK),
+  dc_explicit_ok dc -> dc_conforming_ok kdf l1seed dc truth ->
+  forall (c : cache) (sd : Z) (rko : option Z) (l0 l1 l2 : Z),
+  Inv kdf l1seed truth c -> 0 <= l1 <= 31 -> 0 <= l2 <= 31 -> dc_clock dc sd rko l0 l1 l2 ->
+  let o := fst (protect kdf l1seed nokey dc c sd rko l0 l1 l2) in
+  let o0 := fst (protect kdf l1seed nokey dc empty_cache sd rko l0 l1 l2) in
+  o_pub o = false -> o_pub o0 = false -> o_key o = o_key o0 /\ o_pos o = o_pos o0.
+Proof. exact (@protect_same_as_fresh). Qed.
+Print Assumptions C10_protect_same_as_fresh.
+(* The abstract get_key has no counterpart of the source's L0 guard (`if not 0 <= l0 <= 0x7FFFFFFF: raise ValueError`, regenerated as
+   k_cache_l0_guard; the concrete Model/Client.v cc_get_key has it): admitted histories (ev_adm) only contain unprotect / protect
+   requests whose L0 the guard lets through; for the others the source raises before touching the cache.  The per-call theorems
+   (C10_unprotect_sync, C10_protect_sync, C10_same_as_fresh ..) are stated for the error-free model and say nothing there. *)
+Theorem C10_l0_guard : forall l0, l0_in_range l0 <-> 0 <= l0 <= 2147483647.
+Proof. exact l0_in_range_iff. Qed.
+Print Assumptions C10_l0_guard.
+Example C10_toy_history_completed :
+  completed Toy.tkdf Toy.tl1seed Toy.tnokey Toy.tdc Toy.history =
+  [CUnprotect 0 1 361 3 2; CUnprotect 0 1 361 3 4; CUnprotect 0 1 361 2 9; CUnprotect 0 1 361 5 0;
+   CProtect 0 (Some 1) 361 7 5; CProtect 0 None 361 7 5].
+Proof. exact Toy.history_completed. Qed.
+Example C10_toy_dc_clock : dc_clock Toy.tdc 0 (Some 1) 361 7 5 /\ dc_clock Toy.tdc 0 None 361 7 5.
+Proof. exact Toy.history_dc_clock. Qed.
+
 (* ================================================================================================================
    Tie to the source: whole bodies of _client.py functions, regenerated as syntax on every run (gen/F_cache.v) and run in
    the worlds of Flow/World_cache.v.  (Imports are here, not at the top: PyAst and Model.Cache share the names `world`,
@@ -610,7 +663,10 @@ Theorem C10_protect_online_cache_cases : forall c r1 r2 r3 ns dns getkey cache d
   snd (protect_online c r1 r2 r3 ns dns getkey cache data sid rkid server dom u p a)
   = match protect_stored c ns dns getkey cache sid rkid server dom u p a with
     | Ok cc2 => cc2
-    | Raise _ => match protect_looked_up c ns cache sid rkid with Ok cc1 => cc1 | Raise _ => cache end
+    | Raise _ => match protect_looked_up c ns cache sid rkid with
+                 | Ok cc1 => cc1
+                 | Raise _ => match SecDesc.get_target_sd sid with Ok sd => protection_lookup_cache c cache rkid sd ns | Raise _ => cache end
+                 end
     end.
 Proof. exact protect_online_cache_cases. Qed.
 Print Assumptions C10_protect_online_cache_cases.
